@@ -321,3 +321,138 @@ def eval_dependencies():
             lemma_in_keys_intro(bucket@, bucket.len() as int, j, k);
         }
     }''')])
+
+
+# ---------------------------------------------------------------- C03
+PE_RES = 'Result<BTreeSet<u64>, VErr>'
+
+
+def linear_partial_evaluate():
+    return Unit('Linear::partial_evaluate', E, 'partial_evaluate', impl=r'impl Evaluate for Linear \{',
+                sig='fn partial_evaluate(&mut self, state: &State) -> Result<BTreeSet<u64>>', wrap=('impl Linear {', '}'),
+                header='''pub fn partial_evaluate(&mut self, state: &State) -> (r: %s)
+    ensures
+        r is Ok,
+        // the result no longer mentions any fixed variable, and mentions only variables of the original
+        forall|j: int| 0 <= j < final(self).terms.len() ==> !state.entries@.contains_key((#[trigger] final(self).terms[j]).id),
+        linear_ids(*final(self)).subset_of(linear_ids(*old(self))),
+        // returned set = fixed variables that actually occurred
+        dom_disjoint(linear_ids(*final(self)), state.entries@),
+        r->Ok_0@ =~= ids_in(linear_ids(*old(self)), state.entries@),
+        // value: for every total assignment m that agrees with the fixed part, the value is unchanged (exactly; no dropping here)
+        linear_fin(*old(self)) && state_fin(state.entries@) ==> linear_fin(*final(self)),
+        linear_fin(*old(self)) && state_fin(state.entries@) ==> forall|m: Map<u64, F64>| #![trigger linear_val(*final(self), m)] agree(state.entries@, m) ==> linear_val(*final(self), m) == linear_val(*old(self), m),''' % PE_RES,
+                loops=[dict(kind='while', inv='''invariant
+                0 <= i <= self.terms.len(),
+                forall|j: int| 0 <= j < i ==> !state.entries@.contains_key((#[trigger] self.terms[j]).id),
+                linear_ids(*old(self)) =~= used@.union(lin_ids(self.terms@, self.terms.len() as int)),
+                forall|k: u64| #[trigger] used@.contains(k) ==> state.entries@.contains_key(k),
+                linear_fin(*old(self)) && state_fin(state.entries@) ==> linear_fin(*self),
+                linear_fin(*old(self)) && state_fin(state.entries@) ==> forall|m: Map<u64, F64>| #![trigger lin_all(self.terms@, m)] agree(state.entries@, m) ==> rv(self.constant) + lin_all(self.terms@, m) == linear_val(*old(self), m),
+            decreases self.terms.len() - i''', body_proof=' let ghost t0 = self.terms@;')],
+                proofs=[(('after', r'self\.terms\.swap_remove\(i\);'), ' proof { lemma_swap_removed_ids(t0, i as int, t0.len() - 1); assert(self.terms@ =~= t0.update(i as int, t0.last()).drop_last()); }'),
+                        (('before', r'Ok\(used\)\s*\}\s*$'), '''proof {
+            let ids0 = linear_ids(*old(self)); let fil = ids_in(ids0, state.entries@);
+            assert forall|k: u64| used@.contains(k) <==> fil.contains(k) by {
+                lemma_lin_ids_mem(self.terms@, self.terms.len() as int, k);
+                if fil.contains(k) && !used@.contains(k) {
+                    assert(lin_ids(self.terms@, self.terms.len() as int).contains(k));
+                    let j = choose|j: int| 0 <= j < self.terms.len() && (#[trigger] self.terms@[j]).id == k;
+                    assert(!state.entries@.contains_key(self.terms[j].id));
+                }
+            }
+            assert(used@ =~= fil);
+            assert(linear_ids(*self).subset_of(ids0));
+            assert forall|k: u64| #[trigger] linear_ids(*self).contains(k) implies !state.entries@.contains_key(k) by {
+                lemma_lin_ids_mem(self.terms@, self.terms.len() as int, k);
+                let j = choose|j: int| 0 <= j < self.terms.len() && (#[trigger] self.terms@[j]).id == k;
+                assert(!state.entries@.contains_key(self.terms[j].id));
+            }
+        }
+        ''')])
+
+
+def function_partial_evaluate():
+    return Unit('Function::partial_evaluate', E, 'partial_evaluate', impl=r'impl Evaluate for Function \{',
+                sig='fn partial_evaluate(&mut self, state: &State) -> Result<BTreeSet<u64>>', wrap=('impl Function {', '}'),
+                header='''pub fn partial_evaluate(&mut self, state: &State) -> (r: %s)
+    ensures
+        r is Ok ==> pe_rel(*old(self), *final(self), state.entries@, r->Ok_0@),
+        // it can only fail inside the quadratic arm (COO arrays of different lengths)
+        r is Err ==> old(self).function is Some && old(self).function->Some_0 is Quadratic,''' % PE_RES)
+
+
+def constraint_partial_evaluate():
+    return Unit('Constraint::partial_evaluate', E, 'partial_evaluate', impl=r'impl Evaluate for Constraint \{',
+                sig='fn partial_evaluate(&mut self, state: &State) -> Result<BTreeSet<u64>>', wrap=('impl Constraint {', '}'),
+                header='''pub fn partial_evaluate(&mut self, state: &State) -> (r: %s)
+    ensures
+        r is Ok ==> c_pe_rel(*old(self), *final(self), state.entries@, r->Ok_0@),''' % PE_RES)
+
+
+def removed_constraint_partial_evaluate():
+    return Unit('RemovedConstraint::partial_evaluate', E, 'partial_evaluate', impl=r'impl Evaluate for RemovedConstraint \{',
+                sig='fn partial_evaluate(&mut self, state: &State) -> Result<BTreeSet<u64>>', wrap=('impl RemovedConstraint {', '}'),
+                header='''pub fn partial_evaluate(&mut self, state: &State) -> (r: %s)
+    ensures
+        r is Ok ==> old(self).constraint is Some && final(self).constraint is Some
+            && c_pe_rel(old(self).constraint->Some_0, final(self).constraint->Some_0, state.entries@, r->Ok_0@)
+            && final(self).removed_reason == old(self).removed_reason && final(self).removed_reason_parameters == old(self).removed_reason_parameters,
+        old(self).constraint is None ==> r is Err,''' % PE_RES)
+
+
+def instance_partial_evaluate():
+    return Unit('Instance::partial_evaluate', E, 'partial_evaluate', impl=r'impl Evaluate for Instance \{',
+                sig='fn partial_evaluate(&mut self, state: &State) -> Result<BTreeSet<u64>>', wrap=('impl Instance {', '}'),
+                header='''pub fn partial_evaluate(&mut self, state: &State) -> (r: %s)
+    ensures r is Ok ==> ({
+        let o = *old(self); let n = *final(self); let st = state.entries@;
+        // each fixed value is recorded on the corresponding decision variable, nothing else of the variables changes
+        &&& n.decision_variables.len() == o.decision_variables.len()
+        &&& forall|i: int| 0 <= i < o.decision_variables.len() ==> #[trigger] n.decision_variables[i] == (DecisionVariable {
+                substituted_value: if st.contains_key(o.decision_variables[i].id) { Some(st[o.decision_variables[i].id]) } else { o.decision_variables[i].substituted_value },
+                ..o.decision_variables[i] })
+        // objective, every active and every removed constraint are partially evaluated (same order, same metadata)
+        &&& (o.objective is None ==> n.objective is None)
+        &&& (o.objective is Some ==> n.objective is Some && pe(o.objective->Some_0, n.objective->Some_0, st))
+        &&& n.constraints.len() == o.constraints.len()
+        &&& forall|i: int| 0 <= i < o.constraints.len() ==> c_pe(o.constraints[i], #[trigger] n.constraints[i], st)
+        &&& n.removed_constraints.len() == o.removed_constraints.len()
+        &&& forall|i: int| 0 <= i < o.removed_constraints.len() ==> rc_pe_rel(o.removed_constraints[i], #[trigger] n.removed_constraints[i], st)
+        // dependency functions too (same keys)
+        &&& forall|k: u64| #[trigger] n.decision_variable_dependency@.contains_key(k) <==> o.decision_variable_dependency@.contains_key(k)
+        &&& forall|k: u64| o.decision_variable_dependency@.contains_key(k) ==> pe(o.decision_variable_dependency@[k], #[trigger] n.decision_variable_dependency@[k], st)
+        // everything else is untouched
+        &&& n.sense == o.sense && n.description == o.description && n.parameters == o.parameters && n.constraint_hints == o.constraint_hints
+        // returned ids are fixed variables only
+        &&& forall|k: u64| #[trigger] r->Ok_0@.contains(k) ==> st.contains_key(k)
+    }),''' % PE_RES,
+                subs=[('''for d in self.decision_variable_dependency.values_mut() {
+            let mut new = d.partial_evaluate(state)?;
+            used.append(&mut new);
+        }''', 'pe_dependency_values(&mut self.decision_variable_dependency, state, &mut used)?;')],
+                subs_all=[('used.append(&mut new);', 'btreeset_append(&mut used, &mut new);', 2)],
+                loops=[dict(kind='for', mut_index=True, inv='''invariant
+                0 <= __i1 <= self.decision_variables.len(), self.decision_variables.len() == old(self).decision_variables.len(),
+                *self == (Instance { decision_variables: self.decision_variables, ..*old(self) }),
+                forall|j: int| 0 <= j < __i1 ==> #[trigger] self.decision_variables[j] == (DecisionVariable {
+                    substituted_value: if state.entries@.contains_key(old(self).decision_variables[j].id) { Some(state.entries@[old(self).decision_variables[j].id]) } else { old(self).decision_variables[j].substituted_value },
+                    ..old(self).decision_variables[j] }),
+                forall|j: int| __i1 <= j < self.decision_variables.len() ==> #[trigger] self.decision_variables[j] == old(self).decision_variables[j],
+            decreases self.decision_variables.len() - __i1'''),
+                       dict(kind='for', mut_index=True, inv='''invariant
+                0 <= __i2 <= self.constraints.len(), self.constraints.len() == old(self).constraints.len(),
+                *self == (Instance { constraints: self.constraints, ..mid1 }),
+                forall|j: int| 0 <= j < __i2 ==> c_pe(old(self).constraints[j], #[trigger] self.constraints[j], state.entries@),
+                forall|j: int| __i2 <= j < self.constraints.len() ==> #[trigger] self.constraints[j] == old(self).constraints[j],
+                forall|k: u64| #[trigger] used@.contains(k) ==> state.entries@.contains_key(k),
+            decreases self.constraints.len() - __i2'''),
+                       dict(kind='for', mut_index=True, inv='''invariant
+                0 <= __i3 <= self.removed_constraints.len(), self.removed_constraints.len() == old(self).removed_constraints.len(),
+                *self == (Instance { removed_constraints: self.removed_constraints, ..mid2 }),
+                forall|j: int| 0 <= j < __i3 ==> rc_pe_rel(old(self).removed_constraints[j], #[trigger] self.removed_constraints[j], state.entries@),
+                forall|j: int| __i3 <= j < self.removed_constraints.len() ==> #[trigger] self.removed_constraints[j] == old(self).removed_constraints[j],
+                forall|k: u64| #[trigger] used@.contains(k) ==> state.entries@.contains_key(k),
+            decreases self.removed_constraints.len() - __i3''')],
+                proofs=[(('before', r'let mut __i2: usize = 0;'), 'let ghost mid1 = *self;\n        '),
+                        (('before', r'let mut __i3: usize = 0;'), 'let ghost mid2 = *self;\n        ')])
